@@ -1,2 +1,71 @@
-(** C12 — placeholder (theorems follow) *)
-From MM Require Import Model.Flood.
+(** C12 — flooding converges to valid forwarding paths. *)
+From Coq Require Import List NArith.
+From MM Require Import Model.Flood Proofs.FloodBase Proofs.FloodValid Generated.C12.
+Import ListNotations.
+Local Open Scope N_scope.
+
+(** Validity.  In every state reachable on a topology that does not lose
+    links (any number of agents, any delivery order, duplicates, expiry,
+    connects with replays, any placement of routes): every learned route's
+    next hop is a current neighbour and the first agent of the recorded path,
+    the path is a chain of actual links ending at the origin, and a stream
+    opened along it (DialContext sends STREAM_OPEN to the next hop with
+    path[1:], every agent applies the handleStreamOpen rule [open_walk])
+    terminates at the advertising agent. *)
+Theorem C12_learned_routes_valid : forall cf k ops n ns e,
+  Forall no_disconnect ops ->
+  get (st_nodes (run cf (init k) ops)) n = Some ns -> In e (ns_entries ns) -> e_origin e <> n ->
+  let ls := st_links (run cf (init k) ops) in
+  exists rest, e_path e = e_nexthop e :: rest /\
+    linked ls n (e_nexthop e) = true /\
+    walk ls (e_nexthop e) rest (e_origin e) /\
+    open_walk ls (e_nexthop e) rest = Some (e_origin e).
+Proof. exact learned_routes_valid. Qed.
+Print Assumptions C12_learned_routes_valid.
+
+(** The stream-open rule reaches the end of any chain of links. *)
+Theorem C12_open_reaches_origin : forall ls rest h d, walk ls h rest d -> open_walk ls h rest = Some d.
+Proof. exact open_walk_reaches. Qed.
+Print Assumptions C12_open_reaches_origin.
+
+Section SourceFacts.
+Import String.
+Local Open Scope string_scope.
+(** Source facts regenerated on this run (agent.go, flood.go, routing):
+    handleRouteAdvertise decodes the payload and hands (peer, origin, name,
+    sequence, routes, path, seen-by) to the flooder in that order;
+    handleStreamOpen exits when the remaining path is empty or is itself,
+    otherwise forwards to RemainingPath[0] (a connected peer) with
+    RemainingPath[1:]; DialContext sends to route.NextHop with Path[1:]; the
+    forwarder prepends its own id to the path; the receiver records the
+    sender as next hop and the path as received; connect sends the full table
+    and disconnect drops the peer's routes from all four tables. *)
+Theorem C12_source_facts :
+  gen_handle_route_advertise_args =
+    ["peerID"; "adv.OriginAgent"; "adv.OriginDisplayName"; "adv.Sequence"; "adv.Routes"; "adv.EncPath"; "adv.SeenBy"] /\
+  gen_handle_route_advertise_decodes_payload = true /\
+  gen_open_exit_when_empty_or_self = true /\ gen_open_forwards_new_path_to_next_hop = true /\
+  gen_open_next_hop_index = 0 /\ gen_open_drops = 1 /\
+  gen_dial_uses_next_hop_connection = true /\ gen_dial_drops = 1 /\
+  gen_forward_prepends_self_to_path = true /\ gen_store_next_hop_is_sender_path_as_received = true /\
+  gen_peer_connected_sends_full_table = true /\ gen_peer_disconnect_drops_routes_of_all_tables = true.
+Proof. repeat split; reflexivity. Qed.
+End SourceFacts.
+Print Assumptions C12_source_facts.
+
+(** Non-vacuity: diamond 0-1, 0-2, 1-3, 2-3; agent 3 learns agent 0's CIDR
+    over a two-hop path that is a chain of links, and the stream-open walk
+    along it ends at 0. *)
+Definition ex_ops : list op := [C 0 1; C 0 2; C 1 3; C 2 3; L0 0 1 0; A 0; D 0; D 0; D 0; D 0; D 0; D 0].
+
+Example C12_example_diamond :
+  Forall no_disconnect ex_ops /\
+  let s := run [] (init 4) ex_ops in
+  match get (st_nodes s) 3 with
+  | Some ns => map (fun e => (e_nexthop e, e_path e, open_walk (st_links s) (e_nexthop e) (tl (e_path e)))) (ns_entries ns)
+               = [(1, [1; 0], Some 0); (1, [1; 0], Some 0)]
+  | None => False
+  end.
+Proof.
+  split; [unfold ex_ops; repeat (apply Forall_cons; [exact I|]); apply Forall_nil | vm_compute; reflexivity].
+Qed.
